@@ -14,7 +14,7 @@ def one(name):
     try:
         out = json.loads(r.stdout[r.stdout.index("{"):])
     except Exception:
-        return f"{name} ERROR {r.stdout[-300:]}"
+        return f"{name} ERROR {r.stdout[-200:]!r}"
     return f"{name} applies={out.get('patch_applies')} demo={out.get('demo_clean')}/{out.get('demo_patched')} tests_ok={out.get('tests_ok')} " + " ".join(
         f"{k}:{v['verdict']}" for k, v in out.get("checks", {}).items())
 
